@@ -196,6 +196,23 @@ def run_shard(spec, acc):
     if fn is None:
         acc.violation('diffLines-not-defined', 'include <diff.bare> did not bind diffLines', {})
         return
+    # history: the host keeps ONE options object and gives every run fresh globals - the library is loaded again into them
+    for k in range(2):
+        g_next = {}
+        options_r = dict(options) if k else options
+        options_r['globals'] = g_next
+        try:
+            bare_script.execute_script(bare_script.parse_script("include <diff.bare>\nreturn diffLines(arrayNew('a', 'b'), arrayNew('a', 'c'))"), options_r)
+        except Exception as exc:  # pylint: disable=broad-except
+            acc.violation('library-not-loaded-again', f'run {k + 2} on the reused options with fresh globals: {type(exc).__name__}: {exc}', {'history': 'options-reuse'})
+            return
+        fn_next = g_next.get('diffLines')
+        acc.case(('options-reuse', k), True)
+        if fn_next is None:
+            acc.violation('library-not-loaded-again', f'run {k + 2} on the reused options with fresh globals did not bind diffLines', {'history': 'options-reuse'})
+            return
+        check_pair(['a', 'b', 'c'], ['a', 'x', 'c', 'd'], 'array', fn_next, options_r, acc)
+    fn, options = load_diff(api)
     if spec['part'] == 'random' or spec.get('rem', 0) % 3 == 1:
         # two shards out of three load the library lazily (include inside a function body / inside nested blocks)
         how = 'in-function' if spec.get('shard', spec.get('rem', 0)) % 2 == 0 else 'in-loop'
